@@ -93,6 +93,9 @@ pub enum Op {
     Flush,
     /// the real `ShardSplitter::run_backfill` (moves the split to Backfill itself)
     RunBackfill,
+    /// data the old shard already holds before the split: a registered chunk laid out under the old shard's id
+    /// (`<old shard>/hist_<n>.parquet`, the layout `get_chunks_for_shard` and the splitter's back-fill work on)
+    Historical(Vec<R>),
     /// judge routing (always) and reads (if the case carries queries and the phase is judged)
     Check,
 }
@@ -533,6 +536,31 @@ async fn run_case_inner(c: &Case, tier: &str, verbose: bool, envs: &Arc<EnvState
                 }
                 phase = *p;
                 say!("step {step}: phase := {p:?}");
+            }
+            Op::Historical(rs) => {
+                let rows: Vec<Row> = rs.iter().map(|r| to_row(r, c.split)).collect();
+                let n = writes.len();
+                let path = format!("{split_shard}/hist_{n}.parquet");
+                let bytes = super::common::encode_parquet(&batch_of(&rows, c.ts_type));
+                let size = bytes.len() as u64;
+                if let Err(e) = store.put(&object_store::path::Path::from(path.as_str()), bytes.into()).await {
+                    out.machinery.push(format!("step {step}: historical chunk upload: {e}"));
+                    return;
+                }
+                let m = cardinalsin::ingester::ChunkMetadata {
+                    path: path.clone(),
+                    min_timestamp: rows.iter().map(|r| r.ts).min().unwrap_or(0),
+                    max_timestamp: rows.iter().map(|r| r.ts).max().unwrap_or(0),
+                    row_count: rows.len() as u64,
+                    size_bytes: size,
+                };
+                if let Err(e) = inner.register_chunk(&path, &m).await {
+                    out.machinery.push(format!("step {step}: historical chunk registration: {e}"));
+                    return;
+                }
+                say!("step {step}: historical chunk {path} = {:?}", rows.iter().map(|r| show(r, c.split)).collect::<Vec<_>>());
+                // ingested before the split: counts as accepted rows of the old shard, nothing is dual-written for it
+                writes.push(WriteRec { rows, phase: Ph::None, head_is_split_shard: true, accepted: true });
             }
             Op::RunBackfill => {
                 let sp = ShardSplitter::new(inner.clone(), store.clone());
@@ -1115,7 +1143,14 @@ fn lifecycle_cases(tier: &str) -> Vec<Case> {
                                     Op::Flush,
                                     Op::Check,
                                 ];
-                                out.push(Case { os, ts_type: false, split: S_MAIN, flush_each: fe, reads: true, script });
+                                out.push(Case { os, ts_type: false, split: S_MAIN, flush_each: fe, reads: true, script: script.clone() });
+                                // the same split over a shard that already holds data (rows below, at and above the split
+                                // point), which the real back-fill copies into the new shards
+                                if real_backfill && w0 == &alpha[0] && w3 == &alpha[0] {
+                                    let mut s2 = vec![Op::Historical(vec![R { dt: -1, m: 0, h: 0, v: 1 }, R { dt: 0, m: 0, h: 1, v: 2 }, R { dt: 1, m: 0, h: 2, v: 1 }])];
+                                    s2.extend(script);
+                                    out.push(Case { os, ts_type: false, split: S_MAIN, flush_each: fe, reads: true, script: s2 });
+                                }
                             }
                         }
                     }
@@ -1484,6 +1519,9 @@ pub fn run(tier: &str) -> i32 {
             "reads" | "lifecycle" => {
                 if m.stats.queries_copies_present == 0 {
                     rep.machinery(format!("vacuity guard ({name}): no query ran while double-written copies were present"));
+                }
+                if *name == "lifecycle" && m.stats.backfill_chunks == 0 {
+                    rep.machinery("vacuity guard (lifecycle): the real back-fill never copied a chunk into the new shards");
                 }
                 if *name == "reads" && m.stats.queries_control == 0 {
                     rep.machinery("vacuity guard (reads): no control query ran");
